@@ -134,7 +134,7 @@ Qed.
 
 Lemma handle_unrecognized_nocrash q k : NoCrash (handle_unrecognized_method q k).
 Proof.
-  unfold handle_unrecognized_method; constructor; intros [|r]; [constructor|].
+  unfold handle_unrecognized_method; destruct (req_only_if_cached _); [constructor|]; constructor; intros [|r]; [constructor|].
   destruct (_ && _); [|constructor].
   unfold get_refs_clean; constructor; intros ans.
   apply invalidate_cache_nocrash; [|constructor].
